@@ -147,6 +147,10 @@ def build_cells():
         cells.append((f"Max:{t}:{s[:16]}", f"{s}.Select(lambda v: v - 70).Max()", "double"))
         cells.append((f"Min:{t}:{s[:16]}", f"{s}.Select(lambda v: abs(v) + 3).Min()", "double"))
         cells.append((f"MaxAny:{t}:{s[:16]}", f"{s}.Max()", "double"))
+        # seeds that are not literals: an int-typed method value, a count, an int method with a declared tree type (the type belongs to the method's
+        # own leaf, not to what is folded from it)
+        for seed, ts in (("j.nTrk()", "int"), ("j.constituents().Count()", "int"), ("j.nRaw()", "int")):
+            cells.append((f"AggSeed+:{t}:{seed[:12]}:{s[:16]}", f"{s}.Aggregate({seed}, lambda acc, v: acc + v)", wider(ts, t)))
         for seed, ts in (("0", "int"), ("10", "int"), ("0.5", "double"), ("2.0", "double")):
             cells.append((f"Agg+:{t}:{seed}:{s[:16]}", f"{s}.Aggregate({seed}, lambda acc, v: acc + v)", wider(ts, t)))
             cells.append((f"Agg*:{t}:{seed}:{s[:16]}", f"{s}.Aggregate({seed}, lambda acc, v: acc * 2 + v)", wider(ts, t)))
